@@ -50,7 +50,7 @@ static const Scenario kScenarios[] = {
   /* 19 */ { "validation_on_requester", { RULES "build a: cc s |@ v\nbuild v: cc a\nbuild w: cc s |@ w2\nbuild w2: cc s |@ w\n", NULL, NULL }, "s", "a v w", { { NULL } } },
   /* 20 */ { "cycle_by_depfile", { RULES "build a: ccf s\nbuild b: cc a\nbuild d: cc s\n", NULL, NULL }, "s", "b d", { { "a", "b", 0, NULL }, { NULL } } },
   /* 21 */ { "cycle_by_deps_log", { RULES "build a: ccd s\nbuild b: cc a\nbuild d: cc s\n", NULL, NULL }, "s", "b d", { { "a", "b", 0, NULL }, { NULL } } },
-  /* 22 */ { "self_cycle", { RULES "build a: cc a\nbuild p: phony p\nbuild d: cc s p\nbuild q | q.extra: phony q\nbuild top: cc s q\n", NULL, NULL }, "s", "a d top", { { "a", "", EXPECT_CYCLE, NULL }, { "q", "", EXPECT_CYCLE, NULL }, { NULL } } },
+  /* 22 */ { "self_cycle", { RULES "build a: cc a\nbuild p: phony p\nbuild d: cc s p\nbuild q | q.extra: phony q\nbuild top: cc s q\n", NULL, NULL }, "s", "a d top", { { "a", "", EXPECT_CYCLE, NULL }, { "q", "", EXPECT_CYCLE, NULL }, { "top", "", EXPECT_CYCLE, NULL }, { NULL } } },
   /* 23 */ { "cycle_by_dyndep_running", { RULES "rule mkdd\n  command = scan $in > $out\nbuild dd: mkdd ddsrc\nbuild rout: cc o2\nbuild out: cc rout || dd\n  dyndep = dd\n", NULL, NULL }, "ddsrc o2", "out",
             { { "dd", "", 0, "ninja_dyndep_version = 1\nbuild out | o2: dyndep\n" }, { "out", "", EXPECT_CYCLE, NULL }, { NULL } } },
 };
